@@ -174,6 +174,14 @@ func ParseFile(src string) (f *File, err error) {
 			ps.skipSentence()
 			if t.Val == "Theorem" {
 				f.Decls = append(f.Decls, Decl{Kind: "theorem", Name: name, Line: t.Line})
+				// the proof script: sentences up to and including Qed.
+				for ps.peek().Kind != TEOF {
+					q := ps.peek()
+					ps.skipSentence()
+					if q.Kind == TIdent && q.Val == "Qed" {
+						break
+					}
+				}
 			}
 		case t.Kind == TIdent && (t.Val == "From" || t.Val == "Section" || t.Val == "Context" || t.Val == "Local" || t.Val == "End" || t.Val == "Require" || t.Val == "Import"):
 			if t.Val == "Section" {
